@@ -207,6 +207,7 @@ int main(int argc, char** argv) {
     cfg.workers = 2;
     cfg.concurrency = CONC[ci];
     cfg.timeout = 120;
+    cfg.inProcess = true;  // fork costs ~30 ms in this sandbox
     cfg.rootStride = J;
     cfg.rootOffset = j;
     const bool large = p.large;
